@@ -604,7 +604,12 @@ func TestMutateExamples(t *testing.T) {
 		ev.Inconclusive("no seed packages found")
 		t.Skip("no seeds")
 	}
-	rapid.Check(t, func(t *rapid.T) {
+	rapid.Check(t, mutateProp)
+}
+
+// mutateProp is the property of TestMutateExamples / FuzzMutateExamples.
+func mutateProp(t *rapid.T) {
+	{
 		sp := seeds[gen.Uniform(t, "seed", len(seeds))]
 		fi := gen.Uniform(t, "file", len(sp.files))
 		fset := token.NewFileSet()
@@ -637,7 +642,7 @@ func TestMutateExamples(t *testing.T) {
 			ev.Label("mutation:" + mu)
 		}
 		check(t, "TestMutateExamples", Case{PkgPath: sp.path, Files: files, Kind: "mutants", Muts: muts})
-	})
+	}
 }
 
 // TestSeedsUnmutated: the shipped examples themselves must translate without a crash
